@@ -55,20 +55,46 @@ impl C06 {
         decode_case(tape, &self.params, 0)
     }
 
-    fn check(&self, _sc: &StructCase, c: &Case, rep: &mut CaseReport) {
-        let cfg = RunCfg {
-            runtime: Runtime::Sync,
-            labels: false,
-            render: true,
-            ..Default::default()
+    fn check(&self, sc: &StructCase, c: &Case, rep: &mut CaseReport) {
+        // The configuration is part of "the same problem": activity parameters are a public
+        // knob (any f32 pair), and a solver may already have been used for an earlier solve.
+        let pick = |i: usize, n: usize| (sc.extra.get(i).copied().unwrap_or(0) as usize * n) >> 16;
+        let activity = match pick(0, 6) {
+            0 | 1 | 2 => None,
+            3 => Some((0.0, 1.0)),
+            4 => Some((10.0, 0.5)),
+            _ => Some((3.0e20, 0.95)),
+        };
+        if activity.is_some() {
+            rep.labels.push("non-default-activity-parameters");
+        }
+        // observation of a history: an earlier solve (of a sub-problem) on the same solver
+        let warm: Option<Problem> = if pick(1, 2) == 1 && !c.problem.reqs.is_empty() {
+            rep.labels.push("second-solve-on-a-used-solver");
+            let keep = 1 + pick(2, c.problem.reqs.len());
+            Some(Problem {
+                reqs: c.problem.reqs.iter().take(keep).cloned().collect(),
+                constraints: vec![],
+                soft: vec![],
+            })
+        } else {
+            None
         };
         let mut first: Option<String> = None;
         for i in 0..self.repeats {
-            let cfg_i = RunCfg {
-                labels: i == 0,
-                ..cfg.clone()
-            };
-            let res = run_once(&c.u, &c.problem, &cfg_i);
+            let mut session = Session::new(c.u.clone(), &Runtime::Sync, activity);
+            let mut obs = String::new();
+            if let Some(w) = &warm {
+                let r0 = session.solve(w, Cancel::Never, false, true);
+                rep.evaluations += 1;
+                if let Some(f) = abnormal(&r0.outcome, Cancel::Never) {
+                    rep.failure = Some(f);
+                    return;
+                }
+                obs.push_str(&observation(&r0.outcome).unwrap_or_default());
+                obs.push_str("\n--- then, on the same solver ---\n");
+            }
+            let res = session.solve(&c.problem, Cancel::Never, i == 0, true);
             rep.evaluations += 1;
             if let Some(f) = abnormal(&res.outcome, Cancel::Never) {
                 rep.failure = Some(f);
@@ -83,14 +109,14 @@ impl C06 {
                 }
                 rep.nontrivial = res.labels.learnt >= 1 || mergeable;
             }
-            let obs = observation(&res.outcome).unwrap_or_default();
+            obs.push_str(&observation(&res.outcome).unwrap_or_default());
             match &first {
                 None => first = Some(obs),
                 Some(f) if *f != obs => {
                     rep.failure = Some(Failure {
                         signature: format!(
                             "C06:in-process-divergence:{}",
-                            if f.starts_with("SAT") { "solution" } else { "conflict" }
+                            if f.contains("UNSAT") { "conflict" } else { "solution" }
                         ),
                         detail: format!("run 0 observed:\n{f}\nrun {i} observed:\n{obs}"),
                     });
@@ -117,7 +143,7 @@ impl C06 {
     }
 }
 
-struct_property!(C06, "C06", "tape -> mixed sat/unsat universe + problem, deterministic non-yielding provider; each case is solved 4 times with fresh solvers in this process (every ahash RandomState gets fresh keys) and the whole batch again in 2-3 freshly started processes (new per-process hash seeds, new address layout); the observation (solution vector in order, or conflict message + both graphviz renderings) must be byte-identical. Non-trivial: >=1 learnt clause, or an unsat case whose simplified graph merged sibling candidates. Distinct = distinct hash of case.");
+struct_property!(C06, "C06", "tape -> mixed sat/unsat universe + problem, deterministic non-yielding provider; each case is solved 4 times with fresh solvers in this process (every ahash RandomState gets fresh keys) and the whole batch again in 2-3 freshly started processes (new per-process hash seeds, new address layout); the observation (solution vector in order, or conflict message + both graphviz renderings) must be byte-identical. The configuration belongs to the case: generated activity parameters (default, (0,1), (10,0.5), (3e20,0.95)), and in half of the cases the observation is a HISTORY - a sub-problem solved first on the same solver, then the problem. Non-trivial: >=1 learnt clause, or an unsat case whose simplified graph merged sibling candidates. Distinct = distinct hash of case.");
 
 // =============================================================================== C07
 
